@@ -5,15 +5,21 @@ package c03
 import (
 	"encoding/json"
 	"fmt"
+	"hash/fnv"
 	"strconv"
 	"strings"
+	"sync/atomic"
+	"syscall"
 	"testing"
+	"time"
 
 	"verif/corpus"
 	"verif/internal/vk"
 
 	plush "github.com/gobuffalo/plush/v5"
+	"github.com/gobuffalo/plush/v5/lexer"
 	"github.com/gobuffalo/plush/v5/parser"
+	"github.com/gobuffalo/plush/v5/token"
 	"pgregory.net/rapid"
 )
 
@@ -24,43 +30,135 @@ type Case struct {
 	Frame string  `json:"frame,omitempty"`
 }
 
-const maxLen = 4096
+// CachedCase: sources parsed one after the other through plush.Parse with the
+// template cache switched on (state kept between calls, keyed by the input).
+type CachedCase struct {
+	Srcs []vk.Text `json:"srcs"`
+}
+
+const (
+	maxLen     = 4096      // random phases
+	maxLenDeep = 64 * 1024 // enumerated nesting / chain boundaries and the "big" phase
+)
 
 // oracle: every parsing entry point returns (value, nil) or (_, err); no panic,
-// no token-budget trip. A successfully parsed program must also print.
+// no token-budget trip. A successfully parsed program must also print; an
+// error must have a text; asking the same template again gives the same
+// answer; Render and Exec of an input that does not parse return an error.
 func checkSrc(r *vk.Run, src, frame string) *vk.Fail {
 	c := Case{Src: vk.Text(src), Frame: frame}
 	defer r.Watch("parse", c)()
-	var perr error
+	bad := func(format string, a ...interface{}) *vk.Fail {
+		return &vk.Fail{Kind: "parse", Case: c, Msg: fmt.Sprintf(format, a...)}
+	}
+	// the repeated-call and Render checks cost five more parses: they are made
+	// for one source text in eight, chosen by the text itself (so a replay
+	// makes the same choice)
+	extended := textHash(src)%8 == 0
+
+	// the lexer alone reaches a lasting EOF (a NUL inside a tag yields an early
+	// EOF token, so "lasting" = two in a row) without exhausting the budget
 	res := vk.Safe(func() (string, error) {
-		prog, err := parser.Parse(src)
-		perr = err
-		if err == nil && prog != nil {
-			_ = prog.String()
-			_ = prog.InnerText()
+		l := lexer.New(src)
+		eofs := 0
+		for eofs < 2 {
+			if l.NextToken().Type == token.EOF {
+				eofs++
+			} else {
+				eofs = 0
+			}
 		}
 		return "", nil
 	})
 	if res.Panicked() {
-		return &vk.Fail{Kind: "parse", Case: c, Msg: fmt.Sprintf("parser.Parse(%q): %s", src, res)}
+		return bad("lexer.New(%q).NextToken() until EOF: %s", src, res)
 	}
+
+	var perr error
+	res = vk.Safe(func() (string, error) {
+		prog, err := parser.Parse(src)
+		perr = err
+		if err == nil {
+			if prog == nil {
+				return "", fmt.Errorf("nil program and nil error")
+			}
+			_ = prog.String()
+			if len(src) <= maxLen { // the same printers again: skipped where printing is expensive
+				_ = prog.InnerText()
+			}
+			return "", nil
+		}
+		msg := err.Error()
+		if strings.TrimSpace(msg) == "" {
+			return "", fmt.Errorf("error value with an empty text")
+		}
+		if strings.Contains(msg, "(PANIC=") && !strings.Contains(src, "PANIC=") {
+			return "", fmt.Errorf("a panic was swallowed while formatting the error: %s", msg)
+		}
+		return "", nil
+	})
+	if res.Panicked() {
+		return bad("parser.Parse(%q): %s", src, res)
+	}
+	if res.Err != nil {
+		return bad("parser.Parse(%q): %v", src, res.Err)
+	}
+
 	var terr error
 	res = vk.Safe(func() (string, error) {
 		t, err := plush.Parse(src)
 		terr = err
-		if err == nil && t == nil {
-			return "", fmt.Errorf("nil template and nil error")
+		if t == nil {
+			if err == nil {
+				return "", fmt.Errorf("nil template and nil error")
+			}
+			return "", nil
+		}
+		if !extended {
+			return "", nil
+		}
+		// "can be called many times": the answer does not change
+		if err2 := t.Parse(); (err2 == nil) != (err == nil) {
+			return "", fmt.Errorf("plush.Parse said %v, Template.Parse on the same template then said %v", err, err2)
+		}
+		if err3 := t.Clone().Parse(); (err3 == nil) != (err == nil) {
+			return "", fmt.Errorf("plush.Parse said %v, Parse on a Clone of the template said %v", err, err3)
+		}
+		if err != nil {
+			// nothing is evaluated: the template has no program
+			if _, xerr := t.Exec(plush.NewContext()); xerr == nil {
+				return "", fmt.Errorf("plush.Parse said %v, but Exec of that template returned no error", err)
+			}
 		}
 		return "", nil
 	})
 	if res.Panicked() {
-		return &vk.Fail{Kind: "parse", Case: c, Msg: fmt.Sprintf("plush.Parse(%q): %s", src, res)}
+		return bad("plush.Parse(%q): %s", src, res)
 	}
 	if res.Err != nil {
-		return &vk.Fail{Kind: "parse", Case: c, Msg: fmt.Sprintf("plush.Parse(%q): %v", src, res.Err)}
+		return bad("plush.Parse(%q): %v", src, res.Err)
 	}
 	if (perr == nil) != (terr == nil) {
-		return &vk.Fail{Kind: "parse", Case: c, Msg: fmt.Sprintf("parser.Parse and plush.Parse disagree on %q: %v vs %v", src, perr, terr)}
+		return bad("parser.Parse and plush.Parse disagree on %q: %v vs %v", src, perr, terr)
+	}
+	if perr != nil && extended {
+		// "Parse (and therefore Render)": an input that does not parse is not
+		// evaluated, Render hands the error back
+		res = vk.Safe(func() (string, error) {
+			if _, err := plush.Render(src, plush.NewContext()); err == nil {
+				return "", fmt.Errorf("no error although Parse fails with: %v", perr)
+			}
+			if _, err := plush.BuffaloRenderer(src, map[string]interface{}{}, nil); err == nil {
+				return "", fmt.Errorf("BuffaloRenderer: no error although Parse fails with: %v", perr)
+			}
+			return "", nil
+		})
+		if res.Panicked() {
+			return bad("plush.Render(%q): %s", src, res)
+		}
+		if res.Err != nil {
+			return bad("plush.Render(%q): %v", src, res.Err)
+		}
 	}
 	// evidence
 	nt := ""
@@ -81,10 +179,78 @@ func checkSrc(r *vk.Run, src, frame string) *vk.Fail {
 			if perr != nil {
 				e = perr.Error()
 			}
-			return map[string]interface{}{"src": vk.Text(src), "frame": frame, "error": e}
+			s := src
+			if len(s) > 300 {
+				s = s[:300] + fmt.Sprintf("...(%d bytes)", len(src))
+			}
+			return map[string]interface{}{"src": vk.Text(s), "frame": frame, "error": e}
 		})
 	}
 	return nil
+}
+
+// checkCached parses the sources in order through plush.Parse with the cache
+// on: each answer must agree with a fresh, uncached parse of the same text.
+// Only called from the single-threaded random phase and from replays.
+func checkCached(r *vk.Run, srcs []string) *vk.Fail {
+	c := CachedCase{}
+	for _, s := range srcs {
+		c.Srcs = append(c.Srcs, vk.Text(s))
+	}
+	defer r.Watch("cached", c)()
+	old := plush.CacheEnabled
+	plush.CacheEnabled = true
+	defer func() { plush.CacheEnabled = old }()
+	nontrivial := false
+	for i, src := range srcs {
+		var want error
+		res := vk.Safe(func() (string, error) {
+			_, want = parser.Parse(src)
+			t, err := plush.Parse(src)
+			if (err == nil) != (want == nil) {
+				return "", fmt.Errorf("cached plush.Parse returned error %v, a fresh parser.Parse of the same text %v", err, want)
+			}
+			if err == nil {
+				if t == nil {
+					return "", fmt.Errorf("nil template and nil error")
+				}
+				if err2 := t.Parse(); err2 != nil {
+					return "", fmt.Errorf("template handed out without error does not parse: %v", err2)
+				}
+			}
+			return "", nil
+		})
+		if res.Panicked() {
+			return &vk.Fail{Kind: "cached", Case: c, Msg: fmt.Sprintf("cache on, call %d, plush.Parse(%q): %s", i+1, src, res)}
+		}
+		if res.Err != nil {
+			return &vk.Fail{Kind: "cached", Case: c, Msg: fmt.Sprintf("cache on (it may hold texts of earlier cases), call %d of %d, plush.Parse(%q): %v", i+1, len(srcs), src, res.Err)}
+		}
+		if want != nil && strings.Contains(src, "<%") {
+			nontrivial = true
+		}
+	}
+	nt := ""
+	if nontrivial {
+		nt = "cached\x00" + strings.Join(srcs, "\x00")
+	}
+	r.Count(nt, "cached")
+	return nil
+}
+
+func cpuSeconds() float64 {
+	var ru syscall.Rusage
+	if syscall.Getrusage(syscall.RUSAGE_SELF, &ru) != nil {
+		return 0
+	}
+	tv := func(t syscall.Timeval) float64 { return float64(t.Sec) + float64(t.Usec)/1e6 }
+	return tv(ru.Utime) + tv(ru.Stime)
+}
+
+func textHash(s string) uint32 {
+	h := fnv.New32a()
+	h.Write([]byte(s))
+	return h.Sum32()
 }
 
 func unbalanced(s string) bool {
@@ -104,6 +270,16 @@ var vocab = []string{
 	",", ";", ":", "(", ")", "{", "}", "[", "]", "\\", "\n",
 }
 
+// further spellings: values at the edge of their token class (numbers that do
+// not fit, names with empty parts), bytes the lexer treats specially
+var hugeInt = strings.Repeat("9", 20)
+var hugeFloat = strings.Repeat("9", 400) + ".5"
+var vocabX = []string{
+	hugeInt, hugeFloat, "-" + hugeInt, "0", "007", "1.", ".5", "..", "...", "a.", ".a", "a..b", "a.1", "1.a", "a.b.c.d", "_", "-a", "a-", "--",
+	"1e5", "0x1", "~", "%", "$", "^", "?", "'", "\x00", "\xff", "é", "\r", "\r\n", "\t", "\\<%", "\\\\<%", "\\\"", "\"a\\\"", "\"a\\\\\"", "<", "%>%>", "<%<%",
+	"if(", "for(", "fn(", "else if", "){", "}(", "](", ")[", "a[", "a(", "a.b(", "f()", "a[0]", "f().", "a[0].", "x=", "{}", "[]", "()", "{a:",
+}
+
 var frames = []struct{ name, pre, post string }{
 	{"closed", "<% ", " %>"},
 	{"emit", "<%= ", " %>"},
@@ -117,16 +293,59 @@ var frames = []struct{ name, pre, post string }{
 	{"in-call", "<%= f(", ") %>"},
 	{"bare", "", ""},
 	{"text-around", "x\\<% ", " %>y<%"},
+	// every position of the grammar that takes an operand, a name or a continuation
+	{"if-body", "<%= if (true) { ", " } %>"},
+	{"if-cond", "<%= if (", ") { } %>"},
+	{"after-if", "<%= if (a) { } ", " %>"},
+	{"elseif-cond", "<% if (a) { } else if (", ") { } %>"},
+	{"else-body", "<% if (a) { } else { ", " } %>"},
+	{"for-header", "<%= for (", ") in a { } %>"},
+	{"for-iter", "<%= for (v) in ", " { } %>"},
+	{"fn-params", "<% let f = fn(", ") { } %>"},
+	{"fn-body", "<% let f = fn(x) { ", " } %>"},
+	{"call-block", "<%= f() { ", " } %>"},
+	{"after-call", "<%= f() ", " %>"},
+	{"after-index", "<%= a[0] ", " %>"},
+	{"after-dot", "<%= f().", " %>"},
+	{"after-index-dot", "<%= a[0].", " %>"},
+	{"index", "<%= a[", "] %>"},
+	{"array", "<%= [1, ", "] %>"},
+	{"hash-key", "<%= {", ": 1} %>"},
+	{"hash-val", "<%= {a: ", "} %>"},
+	{"let-name", "<% let ", " = 1 %>"},
+	{"let-val", "<% let x = ", " %>"},
+	{"assign-val", "<% x = ", " %>"},
+	{"index-assign", "<% a[0] = ", " %>"},
+	{"return", "<% return ", " %>"},
+	{"infix-right", "<%= 1 + ", " %>"},
+	{"infix-left", "<%= ", " + 1 %>"},
+	{"prefix", "<%= !", " %>"},
+	{"group", "<%= (", ") %>"},
+	{"string", "<%= \"", "\" %>"},
+	{"bstring", "<%= `", "` %>"},
+	{"line-comment", "<% # ", "\n a %>"},
+	{"after-comment", "<%# c %><% ", " %>"},
+	{"second-tag", "<%= a %><% ", " %>"},
+	{"stmt-seq", "<% a\n", "\nb %>"},
+	{"block-over-tags", "<%= f() { %>x<% ", " %>y<% } %>"},
 }
 
-func seq(idx int64, k int) string {
-	n := int64(len(vocab))
+// the spellings that carry the structure of the grammar
+var coreVocab = []string{
+	"let", "fn", "if", "else", "for", "in", "return", "break", "true", "nil", "a", "a.b", "1", "1.5", `"s"`, "`b`", `"`, "#", ".", "<%", "<%=", "%>",
+	"=", "==", "!", "+", "-", "<", ",", ";", ":", "(", ")", "{", "}", "[", "]", "\n",
+}
+
+const oldFrames = 12 // the framings the first version of this check had
+
+func seqOf(v []string, idx int64, k int, glue string) string {
+	n := int64(len(v))
 	parts := make([]string, k)
 	for j := k - 1; j >= 0; j-- {
-		parts[j] = vocab[idx%n]
+		parts[j] = v[idx%n]
 		idx /= n
 	}
-	return strings.Join(parts, " ")
+	return strings.Join(parts, glue)
 }
 
 func pow(b, e int) int64 {
@@ -135,6 +354,163 @@ func pow(b, e int) int64 {
 		x *= int64(b)
 	}
 	return x
+}
+
+// ---- catalogue of well-formed templates, one per construct, as token lists;
+// the exhaustive "one slip of the keyboard" space is built on it -----------
+
+var catalogueSrc = []string{
+	`<%= a %>`,
+	`<% let x = 1 %>`,
+	`<% x = a.b %>`,
+	`<%= a + b * c %>`,
+	`<%= ! a == - 1 %>`,
+	`<%= ( a + b ) * 2 %>`,
+	`<%= if ( a ) { %> x <% } else if ( b ) { %> y <% } else { %> z <% } %>`,
+	`<% if ( a == 1 && ! b ) { return 1 } %>`,
+	`<% if ( a ) { b } else if ( c ) { d } else if ( e ) { f } else { g } %>`,
+	`<%= for ( k , v ) in xs { %> <%= v %> <% } %>`,
+	`<% for ( v ) in f ( 1 ) { continue } %>`,
+	`<%= for ( x ) in xs { if ( x ) { break } } %>`,
+	`<% let f = fn ( x , y ) { return x + y } %>`,
+	`<%= f ( 1 , "s" , [ 1 , 2 ] , { a : 1 , "b" : 2 } ) %>`,
+	`<%= f ( ) { %> x <% } %>`,
+	`<%= f ( a ) { return 1 } %>`,
+	`<%= a.b ( 1 ) . c ( ) %>`,
+	`<%= f ( ) . g ( ) { %> x <% } %>`,
+	`<%= a [ 0 ] . b [ 1 ] . c %>`,
+	`<%= a [ 0 ] . b ( 1 ) %>`,
+	`<%= f ( ) . b [ 1 ] %>`,
+	`<% a [ 0 ] = 1 %>`,
+	`<%= a [ 0 ] [ "k" ] %>`,
+	`<%# note %> x`,
+	`x \<% y <%= 1 %> z`,
+	"<%= \"s\" + `b` %>",
+	`<% # note NL let x = 1 %>`,
+	`<%= 1.5 ~= "x" %>`,
+	`<% return a ; b ; %>`,
+	`<%= f ( fn ( x ) { x } ) %>`,
+	`<%= { a : { b : [ 1 ] } } %>`,
+	`<% let a = 1 NL let b = 2 NL a = b %>`,
+	`<%= if ( a [ 0 ] . b ( ) ) { } %>`,
+	`<%= if ( ( a || b ) && c != nil ) { %> x <% } %>`,
+	`<% let h = { } %> <% let l = [ ] %>`,
+	`<%= partial ( "p" , { a : 1 } ) %>`,
+}
+
+var catalogue = func() [][]string {
+	var out [][]string
+	for _, s := range catalogueSrc {
+		toks := strings.Fields(s)
+		for i, t := range toks {
+			if t == "NL" {
+				toks[i] = "\n"
+			}
+		}
+		out = append(out, toks)
+	}
+	return out
+}()
+
+// slip describes edit number e of catalogue entry ci: delete / duplicate /
+// swap-with-next one token, or replace it by / insert before it every
+// vocabulary spelling (insert also at the very end).
+func slipCount(toks []string) int64 {
+	n, v := int64(len(toks)), int64(len(vocab))
+	return n*3 + n*v + (n+1)*v
+}
+
+func slip(toks []string, e int64) string {
+	n, v := int64(len(toks)), int64(len(vocab))
+	out := append([]string(nil), toks...)
+	switch {
+	case e < n: // delete
+		out = append(out[:e], out[e+1:]...)
+	case e < 2*n: // duplicate
+		i := e - n
+		out = append(out[:i+1], out[i:]...)
+	case e < 3*n: // swap with the next one (the last one: with the first)
+		i := e - 2*n
+		j := (i + 1) % n
+		out[i], out[j] = out[j], out[i]
+	case e < 3*n+n*v: // replace
+		e -= 3 * n
+		out[e/v] = vocab[e%v]
+	default: // insert
+		e -= 3*n + n*v
+		i := e / v
+		out = append(out[:i], append([]string{vocab[e%v]}, out[i:]...)...)
+	}
+	return strings.Join(out, " ")
+}
+
+// ---- nesting and repetition -----------------------------------------------
+
+var nestUnits = []struct{ open, close string }{
+	{"(", ")"}, {"[", "]"}, {"{a: ", "}"}, {"f(", ")"}, {"a[", "]"}, {"!", ""}, {"-", ""},
+	{"if (true) { ", " }"}, {"if (true) { %>x<% ", " %>y<% }"}, {"for (v) in a { ", " }"}, {"fn(x) { ", " }"},
+	{"f() { ", " }"}, {"<%= ", " %>"}, {"1 + ", ""}, {"a.b(", ").c"}, {"[1, ", "]"}, {"if (", ") { }"}, {"else { ", " }"},
+	// added
+	{"{a: 1, b: ", "}"}, {"{", ": 1}"}, {"f(1, ", ")"}, {"f().", ""}, {"a[0].", ""}, {"a[0][", "]"}, {"f()[", "]"},
+	{"if (a) { } else if (", ") { }"}, {"if (a) { } else { ", " }"}, {"f() { %>x<% ", " %>y<% }"}, {"for (v) in ", " { }"},
+	{"let x = ", ""}, {"x = ", ""}, {"a[0] = ", ""}, {"return ", ""}, {"fn(", ") { }"}, {"1 == ", ""}, {"(1 + ", ")"},
+	{"<% ", " %>"}, {"<%# ", " %>"}, {"\"", "\""}, {"#", "\n"},
+}
+
+// chains: one construct repeated side by side (no syntactic nesting asked for,
+// whatever the parser makes of it)
+var chainUnits = []struct{ pre, rep, post string }{
+	{"<%= a", "(1)", " %>"}, {"<%= a", "[0]", " %>"}, {"<%= a", ".b", " %>"}, {"<%= f()", ".g()", " %>"}, {"<%= a[0]", ".b[0]", " %>"},
+	{"<%= 1", " + 1", " %>"}, {"<%= a", " && b", " %>"}, {"<%= a", " == 1", " %>"}, {"<%= f(1", ", 1", ") %>"}, {"<%= [1", ", 1", "] %>"},
+	{"<%= {a: 1", ", a: 1", "} %>"}, {"<% let f = fn(x", ", x", ") { } %>"}, {"<% if (a) { }", " else if (a) { }", " %>"},
+	{"<% if (a) { }", " else { }", " %>"}, {"<% ", "a\n", " %>"}, {"<% ", "a;", " %>"}, {"<% ", ";", " %>"}, {"", "<%= a %>", ""}, {"", "<%# c %>", ""},
+	{"", "<%# \" %>", ""}, {"<% ", "# c\n", " a %>"}, {"<% ", "#\n", ""}, {"<%= ", "\"s\" ", " %>"}, {"<%= ", "`b` ", " %>"}, {"", "\\<%", ""}, {"", "\\\\<%= 1 %>", ""},
+	{"<% ", "}", " %>"}, {"<% ", ")", " %>"}, {"<% ", "%>", ""}, {"", "<%", ""}, {"<% ", "let x = 1 ", " %>"}, {"<%= for (", "k, ", ") in a { } %>"}, {"<% ", "\n", "a %>"},
+	{"<% ", "return ", "1 %>"}, {"<%= ", "1.", " %>"}, {"<%= a", ".", "b %>"}, {"<%= 1", "9", " %>"}, {"<%= 1.", "9", " %>"}, {"<%= f()", " { }", " %>"},
+}
+
+// knownOpen lists generator classes that are steered away from a defect of
+// plush that is not repaired yet; empty the table once it is.
+//
+// call-chain-cubic: a(1)(1)(1)... costs time cubic in the number of calls
+// (parser.go parseCallExpression prints the whole callee for every call):
+// 1024 calls take 4 s of CPU, 2048 take 19 s, 4096 several minutes, which the
+// watchdog would report as non-termination. Until /tmp/hunt-C03/callchain/fix.diff
+// is applied the chain is generated with at most 257 calls.
+var knownOpen = map[string]bool{
+	// (call-chain-cubic, AF-45, was fixed in /repo: the 1024-call chain runs as regression coverage)
+}
+
+var nestDepths = []int{0, 1, 2, 3, 4, 255, 256, 257, 1024}
+var nestOpeners = []string{"<% ", "<%= ", "<% let x = "}
+var nestCores = []string{"1", "a", "", "\"s\"", "%>"}
+
+func nestText(opener string, opens, closes []string, core string, closeN int, end bool, limit int) string {
+	var sb strings.Builder
+	sb.WriteString(opener)
+	for _, o := range opens {
+		sb.WriteString(o)
+	}
+	sb.WriteString(core)
+	for i := 0; i < closeN && i < len(closes); i++ {
+		sb.WriteString(closes[len(closes)-1-i])
+	}
+	if end {
+		sb.WriteString(" %>")
+	}
+	s := sb.String()
+	if len(s) > limit {
+		s = s[:limit]
+	}
+	return s
+}
+
+func repeatUnit(open, close string, depth int) (opens, closes []string) {
+	for i := 0; i < depth; i++ {
+		opens = append(opens, open)
+		closes = append(closes, close)
+	}
+	return
 }
 
 // ---- random generators ---------------------------------------------------
@@ -151,13 +527,17 @@ func genSoup(t *rapid.T) string {
 	if rapid.IntRange(0, 3).Draw(t, "open") > 0 {
 		sb.WriteString(rapid.SampledFrom([]string{"<% ", "<%= ", "<%# ", "<%"}).Draw(t, "opener"))
 	}
+	spacing := rapid.IntRange(0, 3).Draw(t, "spacing") // 0: never a space (glued), 3: mostly
 	for i := 0; i < n; i++ {
-		if rapid.IntRange(0, 9).Draw(t, "h") == 0 {
+		switch h := rapid.IntRange(0, 11).Draw(t, "h"); {
+		case h == 0:
 			sb.WriteString(rapid.SampledFrom(hostile).Draw(t, "hostile"))
-		} else {
+		case h == 1:
+			sb.WriteString(rapid.SampledFrom(vocabX).Draw(t, "edge"))
+		default:
 			sb.WriteString(rapid.SampledFrom(vocab).Draw(t, "tok"))
 		}
-		if rapid.IntRange(0, 3).Draw(t, "sp") > 0 {
+		if spacing > 0 && rapid.IntRange(0, 3).Draw(t, "sp") < spacing {
 			sb.WriteByte(' ')
 		}
 	}
@@ -215,14 +595,34 @@ func genMutant(t *rapid.T, corp []string) string {
 	return s
 }
 
-var nestUnits = []struct{ open, close string }{
-	{"(", ")"}, {"[", "]"}, {"{a: ", "}"}, {"f(", ")"}, {"a[", "]"}, {"!", ""}, {"-", ""},
-	{"if (true) { ", " }"}, {"if (true) { %>x<% ", " %>y<% }"}, {"for (v) in a { ", " }"}, {"fn(x) { ", " }"},
-	{"f() { ", " }"}, {"<%= ", " %>"}, {"1 + ", ""}, {"a.b(", ").c"}, {"[1, ", "]"}, {"if (", ") { }"}, {"else { ", " }"},
+// genSlips: a catalogue entry with 2-4 token edits (one edit is enumerated)
+func genSlips(t *rapid.T) string {
+	toks := append([]string(nil), rapid.SampledFrom(catalogue).Draw(t, "entry")...)
+	pick := func() string {
+		if rapid.IntRange(0, 4).Draw(t, "edge") == 0 {
+			return rapid.SampledFrom(vocabX).Draw(t, "x")
+		}
+		return rapid.SampledFrom(vocab).Draw(t, "v")
+	}
+	for n := rapid.IntRange(2, 4).Draw(t, "edits"); n > 0 && len(toks) > 0; n-- {
+		i := rapid.IntRange(0, len(toks)-1).Draw(t, "at")
+		switch rapid.IntRange(0, 3).Draw(t, "edit") {
+		case 0:
+			toks = append(toks[:i], toks[i+1:]...)
+		case 1:
+			toks[i] = pick()
+		case 2:
+			toks = append(toks[:i], append([]string{pick()}, toks[i:]...)...)
+		case 3:
+			toks = toks[:i] // truncate
+		}
+	}
+	glue := rapid.SampledFrom([]string{" ", " ", " ", "", "\n"}).Draw(t, "glue")
+	return strings.Join(toks, glue)
 }
 
 func genNest(t *rapid.T) string {
-	depth := rapid.IntRange(1, 256).Draw(t, "depth")
+	depth := rapid.IntRange(1, 300).Draw(t, "depth")
 	mix := rapid.Bool().Draw(t, "mix")
 	u := rapid.IntRange(0, len(nestUnits)-1).Draw(t, "unit")
 	closeN := depth
@@ -241,40 +641,109 @@ func genNest(t *rapid.T) string {
 		opens = append(opens, nestUnits[k].open)
 		closes = append(closes, nestUnits[k].close)
 	}
+	opener := rapid.SampledFrom(nestOpeners).Draw(t, "opener")
+	core := rapid.SampledFrom(nestCores).Draw(t, "core")
+	limit := maxLen
+	if rapid.IntRange(0, 3).Draw(t, "whole") == 0 {
+		limit = maxLenDeep // do not cut the closers off
+	}
+	return nestText(opener, opens, closes, core, closeN, rapid.Bool().Draw(t, "end"), limit)
+}
+
+// genBig: tens of kilobytes of ordinary template text (harvested templates
+// side by side) with one hostile fragment somewhere
+func genBig(t *rapid.T, corp []string) string {
+	want := rapid.IntRange(8*1024, maxLenDeep).Draw(t, "size")
 	var sb strings.Builder
-	sb.WriteString(rapid.SampledFrom([]string{"<% ", "<%= ", "<% let x = "}).Draw(t, "opener"))
-	for _, o := range opens {
-		sb.WriteString(o)
-	}
-	sb.WriteString(rapid.SampledFrom([]string{"1", "a", "", "\"s\"", "%>"}).Draw(t, "core"))
-	for i := 0; i < closeN; i++ {
-		sb.WriteString(closes[len(closes)-1-i])
-	}
-	if rapid.Bool().Draw(t, "end") {
-		sb.WriteString(" %>")
+	for sb.Len() < want {
+		sb.WriteString(rapid.SampledFrom(corp).Draw(t, "part"))
 	}
 	s := sb.String()
-	if len(s) > maxLen {
-		s = s[:maxLen]
+	if rapid.Bool().Draw(t, "hurt") {
+		p := rapid.IntRange(0, len(s)).Draw(t, "pos")
+		s = s[:p] + rapid.SampledFrom(hostile).Draw(t, "frag") + s[p:]
+	}
+	if rapid.Bool().Draw(t, "cut") {
+		s = s[:rapid.IntRange(0, len(s)).Draw(t, "cutAt")]
 	}
 	return s
 }
 
+// genCached: the same text asked for again, with other texts in between that
+// share its beginning, its end, or its length
+func genCached(t *rapid.T, corp []string) []string {
+	var a string
+	switch rapid.IntRange(0, 3).Draw(t, "kind") {
+	case 0:
+		a = genSoup(t)
+	case 1:
+		a = genMutant(t, corp)
+	case 2:
+		a = genSlips(t)
+	default: // a few hundred bytes of well-formed template
+		for n := rapid.IntRange(2, 5).Draw(t, "parts"); n > 0; n-- {
+			a += rapid.SampledFrom(corp).Draw(t, "part")
+		}
+	}
+	other := func() string {
+		switch rapid.IntRange(0, 5).Draw(t, "other") {
+		case 0:
+			return a + rapid.SampledFrom(hostile).Draw(t, "tail")
+		case 5: // a tail that does not parse wherever it lands
+			return a + rapid.SampledFrom([]string{"<%= ) %>", "%><%= ( %>", "<% if %>", "<%= 1 +"}).Draw(t, "badtail")
+		case 1:
+			return rapid.SampledFrom(hostile).Draw(t, "head") + a
+		case 2:
+			if len(a) > 0 {
+				return a[:len(a)-1]
+			}
+			return "x"
+		case 3:
+			b := []byte(a)
+			if len(b) > 0 {
+				b[rapid.IntRange(0, len(b)-1).Draw(t, "at")] = rapid.SampledFrom([]byte("(){}\"`%<a1 ")).Draw(t, "byte")
+			}
+			return string(b)
+		}
+		return rapid.SampledFrom(corp).Draw(t, "corp")
+	}
+	srcs := []string{a}
+	for n := rapid.IntRange(1, 3).Draw(t, "more"); n > 0; n-- {
+		if rapid.Bool().Draw(t, "again") {
+			srcs = append(srcs, a)
+		} else {
+			srcs = append(srcs, other())
+		}
+	}
+	return append(srcs, a)
+}
+
 // ---- the test ------------------------------------------------------------
 
-const rule = "inputs: (E) every sequence of <=k vocabulary tokens (k = 2 quick, 3 thorough, and 4 over the 24 most structural spellings in the thorough tier) in 12 tag framings; (R) random token soup <=60 tokens, byte-level mutations (prefix, suffix, delete, duplicate, insert hostile fragment, swap, replace) of 277 templates harvested from the repository's tests, nesting generators to depth 256; (F, thorough) native coverage-guided fuzzing. Oracle: parser.Parse / plush.Parse return a value or an error, never panic, never exceed the lexer token budget (32*len+65536 NextToken calls) and program.String() prints. Non-trivial = input contains a tag opener and is unbalanced/truncated or is rejected with an error; distinct by input text."
+const rule = "inputs: (E) every sequence of <=k tokens (k = 2 quick, 3 thorough) of a 58-spelling vocabulary joined by a space in the 12 basic tag framings (closed, unclosed, emit, comment, nested opener, text around), and in 34 further framings that put it at every operand, name and continuation position of the grammar (if condition / body / after the block, else-if condition, for header / iterable, fn parameters / body, call block, after a call / an index / a dot, index, array, hash key / value, let name / value, assignment, return, infix left / right, prefix, group, inside a string, after a line comment, second tag, block spanning tags) up to length k-1, at length k over the 38 spellings that carry structure; the same sequences glued without a space and joined by a newline in 3 framings (length 3: 2); (thorough) 4 tokens over the 24 most structural spellings in the basic framings; a second vocabulary of 61 edge spellings (numbers that do not fit int / float64, names with empty parts, NUL, CR, invalid UTF-8, escapes, glued punctuation) alone in every framing, next to every ordinary token (both orders, spaced and glued) in 3 framings and (thorough) in pairs; every single token slip (delete, duplicate, swap with the next, replace by / insert each of the 58 spellings at every position) in a catalogue of 36 well-formed templates that covers every construct; every prefix, suffix and one-byte deletion (thorough: also every insertion of 12 hostile bytes at every position) of the 277 templates harvested from the repository's tests; 40 nesting units at depths 0-4 (closed / half closed / unclosed x 3 openers x 5 innermost operands) and 255, 256, 257, 1024 (fewer combinations; inputs up to 64 KiB), 39 side-by-side repetition units (call, index, member, operator, argument, pair, parameter, else-if, statement, tag, comment, string, escape chains) 0-4, 255-257 and 1024 times, whole and cut inside the last repetition; (R) random token soup <=60 tokens of both vocabularies with and without spaces, 2-4 token slips in the catalogue, byte-level mutations (prefix, suffix, delete, duplicate, insert hostile fragment, swap, replace) of the harvested templates, mixed nesting to depth 300, 8-64 KiB concatenations of harvested templates with one hostile fragment and / or cut, and sequences of 3-5 plush.Parse calls with the template cache on that ask for the same text again with near-identical texts (one byte more, less or different, a tail that does not parse) in between; (H) hostile sizes: 2-3 million opening parentheses / brackets / calls / hashes / tag openers / line comments / prefix operators in a row and 100-200 thousand open blocks (inputs of 3-9 MB: each must be answered with a value or an error, not with the exhaustion of the Go stack); (F, thorough) native coverage-guided fuzzing. Oracle: lexer.NextToken reaches a lasting EOF; parser.Parse / plush.Parse return a value or an error with a non-empty text, never panic, never exceed the lexer token budget (32*len+65536 NextToken calls) and agree on error-ness with each other and with plush.Parse through the cache; a parsed program prints; for one text in eight (chosen by a hash of the text) also: a second Template.Parse and a Clone give the same answer, and Exec, Render and BuffaloRenderer of an input that does not parse return an error. Non-trivial = input contains a tag opener and is unbalanced/truncated or is rejected with an error; distinct by input text."
 
 func setup(t *testing.T) *vk.Run {
 	r := vk.Start(t, "C03", rule,
 		"non-termination is recognised by the H2 token budget (build tag verif) or by the CPU-time watchdog; a parser loop that neither pulls tokens nor burns CPU would be missed",
-		"inputs are capped at 4 KiB so legitimate recursion depth cannot exhaust the goroutine stack",
-		"evaluation of parsed programs is C04's concern and is not exercised here")
+		"inputs are capped at 64 KiB and nesting at 1024 levels: the parser, the printers and the lexer's line-comment skipping recurse once per level and the Go stack (1 GB) is only exhausted (fatal, not recoverable) at about 1-3 million levels, i.e. inputs of 2 MB and more that consist of nothing but nesting; printing a tree is quadratic in its depth (100 000 nested '!' take 13 s), which is slow but terminates",
+		"evaluation of parsed programs is C04's concern and is not exercised here: Exec / Render are only called for inputs whose Parse fails")
 	r.Replayer("parse", func(raw json.RawMessage) *vk.Fail {
 		var c Case
 		if f := vk.Decode(raw, &c); f != nil {
 			return f
 		}
 		return checkSrc(r, string(c.Src), c.Frame)
+	})
+	r.Replayer("cached", func(raw json.RawMessage) *vk.Fail {
+		var c CachedCase
+		if f := vk.Decode(raw, &c); f != nil {
+			return f
+		}
+		var srcs []string
+		for _, s := range c.Srcs {
+			srcs = append(srcs, string(s))
+		}
+		return checkCached(r, srcs)
 	})
 	r.Replayer("gofuzz", func(raw json.RawMessage) *vk.Fail {
 		var c struct {
@@ -313,58 +782,243 @@ func TestReplay(t *testing.T) {
 	r.ReplayEnv()
 }
 
+var hostileBytes = []string{"\"", "`", "(", "{", "[", "%", "<", "\\", "#", ".", "\x00", "\n"}
+
 func TestProp(t *testing.T) {
 	r := setup(t)
 	defer r.Finish()
 	r.ReplayCommitted()
 
-	// E: token sequences
-	k := r.Pick(2, 3)
-	for kk := 0; kk <= k; kk++ {
-		n := pow(len(vocab), kk)
-		total := n * int64(len(frames))
-		r.Subspace(fmt.Sprintf("token sequences of length %d x %d framings", kk, len(frames)), total, true)
+	// E: token sequences in framings
+	t0 := time.Now()
+	phases := map[string]float64{}
+	cpu0 := cpuSeconds()
+	lap := func(name string) {
+		c := cpuSeconds()
+		phases[name] = float64(time.Since(t0).Milliseconds()) / 1000
+		phases[name+" (cpu)"] = float64(int((c-cpu0)*1000)) / 1000
+		t0, cpu0 = time.Now(), c
+		r.Extra("phase_wall_and_cpu_s", phases)
+	}
+	seqSpace := func(what string, v []string, kk int, fidx []int, glue, classPrefix string) {
+		n := pow(len(v), kk)
+		nfr := int64(len(fidx))
+		total := n * nfr
+		r.Subspace(fmt.Sprintf("%s, length %d x %d framings", what, kk, len(fidx)), total, true)
 		r.Parallel(total, 0, func(i int64) {
-			fr := frames[i%int64(len(frames))]
-			body := seq(i/int64(len(frames)), kk)
-			r.Check(checkSrc(r, fr.pre+body+fr.post, fr.name))
+			fr := frames[fidx[i%nfr]]
+			r.Check(checkSrc(r, fr.pre+seqOf(v, i/nfr, kk, glue)+fr.post, classPrefix+fr.name))
 		})
 	}
+	var oldF, newF, allF []int
+	for i := range frames {
+		allF = append(allF, i)
+		if i < oldFrames {
+			oldF = append(oldF, i)
+		} else {
+			newF = append(newF, i)
+		}
+	}
+	k := r.Pick(2, 3)
+	// the first 12 framings: the whole vocabulary up to length k
+	for kk := 0; kk <= k; kk++ {
+		seqSpace("token sequences over the vocabulary", vocab, kk, oldF, " ", "")
+	}
+	// the 34 operand / name / continuation framings: whole vocabulary to length
+	// k-1, the 38 core spellings at length k
+	for kk := 0; kk < k; kk++ {
+		seqSpace("token sequences over the vocabulary", vocab, kk, newF, " ", "")
+	}
+	seqSpace("token sequences over the 38 core spellings", coreVocab, k, newF, " ", "")
+	lap("sequences")
+	// the same sequences glued without a space / joined by a newline
+	glueF := []int{0, 3, 9} // closed, emit-open, in-call
+	for kk := 2; kk <= k; kk++ {
+		if kk == 3 {
+			glueF = []int{3, 9}
+		}
+		seqSpace("token sequences glued without a space", vocab, kk, glueF, "", "glued-")
+		seqSpace("token sequences joined by a newline", vocab, kk, glueF, "\n", "newline-")
+	}
+	lap("glued")
+	// edge spellings alone, before and after every ordinary token, and (thorough) in pairs
+	{
+		seqSpace("one edge spelling", vocabX, 1, allF, " ", "edge-")
+		nx, nv := int64(len(vocabX)), int64(len(vocab))
+		edgeF := []int{1, 2, 10} // emit, open, bare
+		of := int64(len(edgeF))
+		total := nx * nv * 4 * of
+		r.Subspace(fmt.Sprintf("edge spelling next to an ordinary token (2 orders, spaced / glued) x %d framings", len(edgeF)), total, true)
+		r.Parallel(total, 0, func(i int64) {
+			fr := frames[edgeF[i%of]]
+			j := i / of
+			mode := j % 4
+			j /= 4
+			x, v := vocabX[j/nv], vocab[j%nv]
+			a, b := x, v
+			if mode&1 == 1 {
+				a, b = v, x
+			}
+			g := " "
+			if mode&2 == 2 {
+				g = ""
+			}
+			r.Check(checkSrc(r, fr.pre+a+g+b+fr.post, "edge-"+fr.name))
+		})
+		if r.Thorough() {
+			seqSpace("two edge spellings", vocabX, 2, allF, " ", "edge-")
+		}
+	}
+	lap("edge")
 	// E (thorough): sequences of 4 tokens over the 24 most structural spellings
 	if r.Thorough() {
 		core := []string{"if", "else", "for", "in", "fn", "let", "return", "break", "a", "1", `"s"`, "(", ")", "{", "}", "[", "]", ",", ":", ".", "=", "<%", "<%=", "%>"}
 		nc := int64(len(core))
-		total := nc * nc * nc * nc * int64(len(frames))
-		r.Subspace(fmt.Sprintf("token sequences of length 4 over %d structural spellings x %d framings", nc, len(frames)), total, true)
+		of := int64(oldFrames)
+		total := nc * nc * nc * nc * of
+		r.Subspace(fmt.Sprintf("token sequences of length 4 over %d structural spellings x %d framings", nc, oldFrames), total, true)
 		r.Parallel(total, 0, func(i int64) {
-			fr := frames[i%int64(len(frames))]
-			j := i / int64(len(frames))
-			parts := make([]string, 4)
-			for k := 3; k >= 0; k-- {
-				parts[k] = core[j%nc]
-				j /= nc
-			}
-			r.Check(checkSrc(r, fr.pre+strings.Join(parts, " ")+fr.post, fr.name))
+			fr := frames[i%of]
+			r.Check(checkSrc(r, fr.pre+seqOf(core, i/of, 4, " ")+fr.post, fr.name))
 		})
 	}
-	// E: every prefix and every suffix of every harvested template
-	corp := corpus.Templates()
-	var cuts int64
-	for ti, s := range corp {
-		if !r.Mine(int64(ti)) {
-			continue
+	lap("len4")
+	// E: every single token slip in every catalogue entry
+	{
+		var offs []int64
+		var total int64
+		for _, toks := range catalogue {
+			offs = append(offs, total)
+			total += slipCount(toks)
 		}
+		r.Subspace(fmt.Sprintf("every single token slip (delete, duplicate, swap, replace by / insert each of %d spellings) in %d well-formed templates", len(vocab), len(catalogue)), total, true)
+		r.Parallel(total, 0, func(i int64) {
+			ci := len(offs) - 1
+			for offs[ci] > i {
+				ci--
+			}
+			r.Check(checkSrc(r, slip(catalogue[ci], i-offs[ci]), "slip"))
+		})
+		for _, toks := range catalogue {
+			r.Check(checkSrc(r, strings.Join(toks, " "), "catalogue"))
+		}
+	}
+	lap("slips")
+	// E: every prefix, suffix and one-byte deletion of every harvested template
+	corp := corpus.Templates()
+	var cuts, dels, ins int64
+	r.Parallel(int64(len(corp)), 0, func(ti int64) {
+		s := corp[ti]
 		for p := 0; p <= len(s); p++ {
 			r.Check(checkSrc(r, s[:p], "prefix"))
 			r.Check(checkSrc(r, s[p:], "suffix"))
-			cuts += 2
 		}
-	}
+		atomic.AddInt64(&cuts, 2*int64(len(s)+1))
+	})
 	r.Subspace("every prefix and suffix of the harvested templates", cuts, true)
+	r.Parallel(int64(len(corp)), 0, func(ti int64) {
+		s := corp[ti]
+		var d, n int64
+		for p := 0; p < len(s); p++ {
+			r.Check(checkSrc(r, s[:p]+s[p+1:], "delete-byte"))
+			d++
+		}
+		if r.Thorough() {
+			for p := 0; p <= len(s); p++ {
+				for _, h := range hostileBytes {
+					r.Check(checkSrc(r, s[:p]+h+s[p:], "insert-byte"))
+					n++
+				}
+			}
+		}
+		atomic.AddInt64(&dels, d)
+		atomic.AddInt64(&ins, n)
+	})
+	r.Subspace("every one-byte deletion of the harvested templates", dels, true)
+	if r.Thorough() {
+		r.Subspace(fmt.Sprintf("every insertion of one of %d hostile bytes at every position of the harvested templates", len(hostileBytes)), ins, true)
+	}
+	lap("corpus")
+	// E: nesting and repetition at the boundary depths
+	{
+		type cell struct {
+			unit, depth, closing int
+			opener, core         string
+		}
+		// depths 0-4: the whole matrix; 255-257: one opener, two cores; 1024
+		// (expensive: the printers copy the text once per level): closed and
+		// unclosed, one opener, one core
+		var cells []cell
+		depths := nestDepths
+		if r.Quick() {
+			depths = []int{0, 1, 2, 3, 4, 255, 256, 257, 1024}
+		}
+		for u := range nestUnits {
+			for _, d := range depths {
+				for cl := 0; cl < 3; cl++ {
+					switch {
+					case d <= 4:
+						for _, o := range nestOpeners {
+							for _, c := range nestCores {
+								cells = append(cells, cell{u, d, cl, o, c})
+							}
+						}
+					case r.Quick():
+						// closed and unclosed at 255-257, at 1024 closed only and the first 12 units only
+						if (cl == 0 && (d < 1024 || u < 12)) || (cl == 2 && d < 1024) {
+							cells = append(cells, cell{u, d, cl, "<%= ", "1"})
+						}
+					case d < 1024:
+						cells = append(cells, cell{u, d, cl, "<%= ", "1"}, cell{u, d, cl, "<%= ", ""})
+					case cl != 1:
+						cells = append(cells, cell{u, d, cl, "<%= ", "1"})
+					}
+				}
+			}
+		}
+		total := int64(len(cells))
+		r.Subspace(fmt.Sprintf("%d nesting units x depths %v x closed/half/unclosed (depths <= 4: x %d openers x %d cores; 255-257: 2 cores, quick 1 core and not half closed; 1024: closed and unclosed, quick closed)", len(nestUnits), depths, len(nestOpeners), len(nestCores)), total, true)
+		r.Parallel(total, 0, func(i int64) {
+			c := cells[i]
+			u := nestUnits[c.unit]
+			opens, closes := repeatUnit(u.open, u.close, c.depth)
+			closeN := []int{c.depth, c.depth / 2, 0}[c.closing]
+			r.Check(checkSrc(r, nestText(c.opener, opens, closes, c.core, closeN, c.closing != 2, maxLenDeep), "nest-edge"))
+		})
+		counts := append([]int{}, depths...) // 1024 repetitions cost little: no nesting
+		total = int64(len(chainUnits) * len(counts) * 2)
+		r.Subspace(fmt.Sprintf("%d repetition units x counts %v x whole / cut in the middle of the last repetition", len(chainUnits), counts), total, true)
+		r.Parallel(total, 0, func(i int64) {
+			cut := i%2 == 1
+			i /= 2
+			n := counts[i%int64(len(counts))]
+			u := chainUnits[i/int64(len(counts))]
+			if knownOpen["call-chain-cubic"] && u.rep == "(1)" && n > 257 {
+				r.Exclude("call-chain-cubic")
+				return
+			}
+			s := u.pre + strings.Repeat(u.rep, n)
+			if cut {
+				if n > 0 {
+					s = s[:len(s)-(len(u.rep)+1)/2]
+				}
+			} else {
+				s += u.post
+			}
+			if len(s) > maxLenDeep {
+				s = s[:maxLenDeep]
+			}
+			r.Check(checkSrc(r, s, "chain"))
+		})
+	}
 
+	lap("nest-edge")
 	// R
 	r.Rapid("soup", r.Pick(4000, 60000), func(t *rapid.T) *vk.Fail {
 		return checkSrc(r, genSoup(t), "soup")
+	})
+	r.Rapid("slips", r.Pick(4000, 60000), func(t *rapid.T) *vk.Fail {
+		return checkSrc(r, genSlips(t), "slips")
 	})
 	r.Rapid("mutants", r.Pick(4000, 60000), func(t *rapid.T) *vk.Fail {
 		return checkSrc(r, genMutant(t, corp), "mutant")
@@ -372,6 +1026,44 @@ func TestProp(t *testing.T) {
 	r.Rapid("nesting", r.Pick(1500, 20000), func(t *rapid.T) *vk.Fail {
 		return checkSrc(r, genNest(t), "nest")
 	})
+	r.Rapid("big", r.Pick(60, 600), func(t *rapid.T) *vk.Fail {
+		return checkSrc(r, genBig(t, corp), "big")
+	})
+	r.Rapid("cached", r.Pick(1500, 20000), func(t *rapid.T) *vk.Fail {
+		return checkCached(r, genCached(t, corp))
+	})
+	lap("random")
+
+	// (H) hostile sizes: megabytes of nothing but nesting, openers or comments. The parser recurses per level and the
+	// lexer used to recurse per comment line: without a bound this ends in a fatal stack overflow, which kills the
+	// process (the run is then reported as inconclusive, exit 2, not as a violation - there is no recovering from it).
+	// One shard only; the inputs are built here, not stored.
+	if r.Shard == 0 {
+		type huge struct {
+			name, prefix, unit, suffix string
+			n                          int
+		}
+		hs := []huge{
+			{"3M open parentheses", "<%= ", "(", "", 3000000},
+			{"3M tag openers", "", "<% ", "", 3000000},
+			{"3M line comments", "<%= 1 ", "#\n", "%>", 3000000},
+			{"10001 balanced parentheses", "<%= " + strings.Repeat("(", 10001) + "1", ")", " %>", 10001},
+		}
+		if r.Thorough() {
+			hs = append(hs,
+				huge{"2M open brackets", "<%= ", "[", "", 2000000},
+				huge{"2M open calls", "<%= ", "f(", "", 2000000},
+				huge{"2M open hashes", "<%= ", "{a:", "", 2000000},
+				huge{"3M bangs", "<%= ", "!", "x %>", 3000000},
+				huge{"200k open blocks", "<%= ", "f() { ", "", 200000},
+				huge{"100k open ifs", "", "<%= if (true) { %>", "", 100000})
+		}
+		for _, h := range hs {
+			r.Check(checkSrc(r, h.prefix+strings.Repeat(h.unit, h.n)+h.suffix, "huge: "+h.name))
+		}
+		r.Subspace("hostile sizes: megabytes of opening brackets / calls / hashes / blocks / tag openers / line comments / prefix operators", int64(len(hs)), true)
+		lap("huge")
+	}
 }
 
 // FuzzParse is the native coverage-guided target (thorough tier only).
@@ -382,6 +1074,9 @@ func FuzzParse(f *testing.F) {
 	for _, h := range hostile {
 		f.Add([]byte("<% " + h + " %>"))
 		f.Add([]byte("a" + h))
+	}
+	for _, toks := range catalogue {
+		f.Add([]byte(strings.Join(toks, " ")))
 	}
 	f.Fuzz(func(t *testing.T, b []byte) {
 		if len(b) > maxLen {
